@@ -250,8 +250,8 @@ Definition lobs (s : lstate) : list (list Q * list bool) * option (list Q * list
    component j of the electric system is the machine of the line (HybridPropulsionSystem requires the
    same object on both sides).  Its electrical power is the component's power_input, its shaft power the
    component's power_output; the line's p_elec / p_shaft are the same two fields seen from the shaft side.
-   do_power_balance_calculation = electric balance ; shaft balance ; electric balance again when any step
-   is in full-PTI mode. *)
+   do_power_balance_calculation = electric balance ; shaft balance ; when any step is in full-PTI mode the
+   electric balance and then the shaft balance again. *)
 Record hstate := { h_elec : estate; h_line : lstate; h_j : nat }.
 
 Definition shared_comp (s : hstate) : option mcomp := nth_error (e_comps (h_elec s)) (h_j s).
@@ -293,7 +293,11 @@ Section HybridMachine.
         if any_full s2 then
           match ebalance conv (h_elec s2) with
           | None => None
-          | Some e3 => Some (to_line {| h_elec := e3; h_line := h_line s2; h_j := h_j s |})
+          | Some e3 =>
+              (* ... and the shaft balance once more (fix D-22), so that the engines follow the shaft power the second
+                 electric pass wrote *)
+              let s3 := to_line {| h_elec := e3; h_line := h_line s2; h_j := h_j s |} in
+              Some (to_elec_side {| h_elec := h_elec s3; h_line := lbalance to_elec (h_line s3); h_j := h_j s |})
           end
         else Some s2
     end.
